@@ -256,11 +256,38 @@ where
     let acc = T::from(pf(params, "accept")).unwrap();
     let (ncol, ndis) = (pus(params, "n_collect"), pus(params, "n_discard"));
     let mut chain = NUTSChain::<T, B, GTarget>::new(target.clone(), init, acc).set_seed(pu(params, "seed"));
+    o.hash = str_hash(&params.to_string());
+    // optional first segment of a two-call history: run, then the caller assigns a new start point
+    // through the public `position` field, then the judged run follows
+    if params.get("reposition").and_then(|v| v.as_bool()).unwrap_or(false) {
+        mcmc_sim::trace::start();
+        let r0 = std::panic::catch_unwind(std::panic::AssertUnwindSafe(|| chain.run(g.usize(1, 3), g.usize(0, 3))));
+        let ev0 = mcmc_sim::trace::stop();
+        if r0.is_err() {
+            let _ = mcmc_sim::sim::take_last_panic();
+            return o;
+        }
+        // judge the first segment too
+        let trs0 = parse_transitions(&ev0);
+        let end0 = tvals1(&chain.position);
+        for (i, lt) in trs0.iter().enumerate() {
+            if !lt.complete {
+                continue;
+            }
+            let next: &[f64] = if i + 1 < trs0.len() { &trs0[i + 1].pos } else { &end0 };
+            o.work += 1;
+            if !judge_transition(&mut o, &target, lt, next, eps_b, name) {
+                return o;
+            }
+        }
+        let newpos: Vec<f64> = (0..d).map(|_| ((g.normal() * scale0 * 2.0) as f32) as f64).collect();
+        chain.position = Tensor::<B, 1>::from_data(TensorData::new(newpos, [d]), &chain.position.device());
+        o.count("probe_position_reassigned_between_runs", 1);
+    }
     mcmc_sim::trace::start();
     let _ = mcmc_sim::sim::take_last_panic();
     let r = std::panic::catch_unwind(std::panic::AssertUnwindSafe(|| chain.run(ncol, ndis)));
     let ev = mcmc_sim::trace::stop();
-    o.hash = str_hash(&params.to_string());
     if r.is_err() {
         let m = mcmc_sim::sim::take_last_panic().unwrap_or_default();
         if m.contains("VERIF-EVAL-BUDGET") {
@@ -314,7 +341,7 @@ impl Scenario for NutsTransitions {
         if g.bool(1, 40) {
             return json!({"float": "f64", "wide": true, "gseed": g.u64(), "seed": g.u64(), "n_collect": 3, "n_discard": 0, "accept": fbits(0.8), "start_scale": fbits(1.0)});
         }
-        json!({"float": *g.pick(&["f64", "f64", "f64", "f32"]), "gseed": g.u64(), "seed": g.u64(), "n_collect": g.usize(1, 6), "n_discard": g.usize(0, 14), "accept": fbits(g.f64_in(0.55, 0.97)), "start_scale": fbits(g.log_uniform(0.1, 4.0))})
+        json!({"float": *g.pick(&["f64", "f64", "f64", "f32"]), "gseed": g.u64(), "seed": g.u64(), "n_collect": g.usize(1, 6), "n_discard": g.usize(0, 14), "accept": fbits(g.f64_in(0.55, 0.97)), "start_scale": fbits(g.log_uniform(0.1, 4.0)), "reposition": g.bool(1, 4)})
     }
     fn execute(&self, p: &Value, ws: bool) -> Outcome {
         if ps(p, "float") == "f32" {
